@@ -592,8 +592,14 @@ def c11_execute(case, stats, log):
                             (index_word == refcodec.narrowest_word(biggest) and rowid_word == refcodec.narrowest_word(maxrow))):
                 continue  # big files: only the narrowest admissible pair and (8, 8)
             blob = refcodec.encode(want_entries, case["common"], index_word, rowid_word)
+            where = "load(iw=%d,rw=%d)" % (index_word, rowid_word)
+            if not big and (case_digest(case) + index_word + rowid_word) % 4 == 0:
+                # the other tool re-saved in place over a longer earlier file, exactly as the library's own writer
+                # does on an "r+b" handle: the size field delimits the payload, what follows it is not part of it
+                blob += ref[-(1 + case_digest(case) % 40):]
+                where += "+stale-tail"
+                stats.count("ref_to_lib_files_followed_by_stale_tail")
             with disk.SimDisk(blob) as d2:
-                where = "load(iw=%d,rw=%d)" % (index_word, rowid_word)
                 try:
                     loaded = real_load(d2, case["rmode"])
                 except Exception as e:
